@@ -241,6 +241,16 @@ func (p *Prog) lockWrappers() map[string]wrapperSum {
 			}
 			stmts = stmts[1:]
 		}
+		// ... or the positive form of the nil guard: if recv != nil { recv.m.Lock() }
+		if len(stmts) == 1 {
+			if ifs, ok := stmts[0].(*ast.IfStmt); ok && ifs.Else == nil && ifs.Init == nil && len(ifs.Body.List) == 1 {
+				if e := isNilCompare(info, ifs.Cond); e != nil && objOf(info, e) == recv {
+					if be, ok := ast.Unparen(ifs.Cond).(*ast.BinaryExpr); ok && be.Op == token.NEQ {
+						stmts = ifs.Body.List
+					}
+				}
+			}
+		}
 		if len(stmts) != 1 {
 			continue
 		}
